@@ -74,7 +74,6 @@ type StdScheduler struct {
 	interrupt chan struct{}
 	cancel    context.CancelFunc
 	feeder    chan ScheduledJob
-	dispatch  chan ScheduledJob
 	started   bool
 	run       uint64          // counts the calls to Start that took effect
 	runCtx    context.Context // the context of the current run
@@ -248,7 +247,6 @@ func NewStdScheduler(opts ...SchedulerOpt) (Scheduler, error) {
 	scheduler := &StdScheduler{
 		interrupt:   make(chan struct{}, 1),
 		feeder:      make(chan ScheduledJob),
-		dispatch:    make(chan ScheduledJob),
 		queue:       NewJobQueue(),
 		queueLocker: &sync.Mutex{},
 		opts:        config,
@@ -339,12 +337,15 @@ func (sched *StdScheduler) Start(ctx context.Context) {
 		sched.stopRun(run)
 	}(sched.run)
 
+	// the workers of a run take jobs from the execution loop of that run only
+	dispatch := make(chan ScheduledJob)
+
 	// start scheduler execution loop
 	sched.wg.Add(1)
-	go sched.startExecutionLoop(ctx)
+	go sched.startExecutionLoop(ctx, dispatch)
 
 	// starts worker pool if configured
-	sched.startWorkers(ctx)
+	sched.startWorkers(ctx, dispatch)
 
 	sched.started = true
 }
@@ -580,7 +581,7 @@ func (sched *StdScheduler) stop() {
 	sched.started = false
 }
 
-func (sched *StdScheduler) startExecutionLoop(ctx context.Context) {
+func (sched *StdScheduler) startExecutionLoop(ctx context.Context, dispatch chan<- ScheduledJob) {
 	defer sched.wg.Done()
 	const maxTimerDuration = time.Duration(1<<63 - 1)
 	timer := time.NewTimer(maxTimerDuration)
@@ -605,7 +606,7 @@ func (sched *StdScheduler) startExecutionLoop(ctx context.Context) {
 		select {
 		case <-timer.C:
 			sched.logger.Trace("Tick")
-			if err := sched.executeAndReschedule(ctx); err != nil {
+			if err := sched.executeAndReschedule(ctx, dispatch); err != nil {
 				retryAt = time.Now().Add(sched.opts.RetryInterval)
 			}
 
@@ -624,7 +625,7 @@ func (sched *StdScheduler) startExecutionLoop(ctx context.Context) {
 	}
 }
 
-func (sched *StdScheduler) startWorkers(ctx context.Context) {
+func (sched *StdScheduler) startWorkers(ctx context.Context, dispatch <-chan ScheduledJob) {
 	if !sched.opts.BlockingExecution && sched.opts.WorkerLimit > 0 {
 		sched.logger.Debug("Starting scheduler workers", "n", sched.opts.WorkerLimit)
 		for i := 0; i < sched.opts.WorkerLimit; i++ {
@@ -635,7 +636,7 @@ func (sched *StdScheduler) startWorkers(ctx context.Context) {
 					select {
 					case <-ctx.Done():
 						return
-					case scheduled := <-sched.dispatch:
+					case scheduled := <-dispatch:
 						sched.executeWithRetries(ctx, scheduled.JobDetail())
 					}
 				}
@@ -670,7 +671,7 @@ func (sched *StdScheduler) calculateNextTick() time.Duration {
 	return nextTickDuration
 }
 
-func (sched *StdScheduler) executeAndReschedule(ctx context.Context) error {
+func (sched *StdScheduler) executeAndReschedule(ctx context.Context, dispatch chan<- ScheduledJob) error {
 	// fetch a job for processing
 	scheduled, valid, err := sched.fetchAndReschedule()
 
@@ -683,7 +684,7 @@ func (sched *StdScheduler) executeAndReschedule(ctx context.Context) error {
 			sched.executeWithRetries(ctx, scheduled.JobDetail())
 		case sched.opts.WorkerLimit > 0:
 			select {
-			case sched.dispatch <- scheduled:
+			case dispatch <- scheduled:
 			case <-ctx.Done():
 				return err
 			}
